@@ -585,11 +585,21 @@ func (c *Compiler) applyUsesToNode(mod, nod, use parse.Node, parentStatus schema
 		refinedNodes = append(refinedNodes, newKid)
 	}
 
+	// refine and augment name schema nodes of the grouping, not the
+	// typedefs or groupings that it may also contain (and that may have
+	// the same name as one of its nodes)
+	targetNodes := make([]parse.Node, 0, len(refinedNodes))
+	for _, rn := range refinedNodes {
+		if t := rn.Type(); t.IsDataNode() || t.IsOpdDefNode() {
+			targetNodes = append(targetNodes, rn)
+		}
+	}
+
 	for _, r := range use.ChildrenByType(parse.NodeRefine) {
 
 		applyToPath := r.ArgDescendantSchema()
 		applyToNode := c.getDataDescendant(
-			use, refinedNodes, applyToPath, assertRef)
+			use, targetNodes, applyToPath, assertRef)
 		if applyToNode == nil {
 			c.error(r, fmt.Errorf("Invalid path: %s", xmlPathString(applyToPath)))
 		}
@@ -621,7 +631,7 @@ func (c *Compiler) applyUsesToNode(mod, nod, use parse.Node, parentStatus schema
 					a.Argument().String()))
 		}
 		applyToPath := a.ArgDescendantSchema()
-		c.applyAugment(a, refinedNodes, applyToPath, status)
+		c.applyAugment(a, targetNodes, applyToPath, status)
 	}
 	for _, a := range use.ChildrenByType(parse.NodeOpdAugment) {
 		if _, ok := a.Argument().(*parse.DescendantSchemaArg); !ok {
@@ -630,7 +640,7 @@ func (c *Compiler) applyUsesToNode(mod, nod, use parse.Node, parentStatus schema
 					a.Argument().String()))
 		}
 		applyToPath := a.ArgDescendantSchema()
-		c.applyAugment(a, refinedNodes, applyToPath, status)
+		c.applyAugment(a, targetNodes, applyToPath, status)
 	}
 
 	nod.ReplaceChild(use, refinedNodes...)
